@@ -21,7 +21,7 @@ failed=$(grep -E '^FAILED' /tmp/vw_$IDK.tests.out | grep -v -E 'test_atomic_imag
 cd /
 git -C /repo worktree remove --force "$W"
 echo "$IDK: demo clean rc=$rc_clean, demo with change rc=$rc_mut, tests: $tests_line, unexpected test failures=$failed"
-if [ "$rc_clean" = 0 ] && [ "$rc_mut" != 0 ] && [ "$failed" = 0 ] && echo "$tests_line" | grep -q "83 passed"; then
+if [ "$rc_clean" = 0 ] && [ "$rc_mut" != 0 ] && [ "$failed" = 0 ] && echo "$tests_line" | grep -qE "(83|84|85|86) passed"; then
   mkdir -p "$DIR/seeded/$IDK"
   cp "$SRC/patch.diff" "$SRC/demo.py" "$DIR/seeded/$IDK/"
   [ -f "$SRC/notes.md" ] && cp "$SRC/notes.md" "$DIR/seeded/$IDK/"
